@@ -159,7 +159,7 @@ func (g *rig) judge(q *rq) bool {
 		g.viol("transparency|content-encoding"+sfx, fmt.Sprintf("hit Content-Encoding %q, origin %q", ce, x.Cenc), ox)
 	}
 	if g.cf.StoreHdr {
-		for _, k := range []string{"X-U1", "X-U2", "X-Exp-Sec"} {
+		for _, k := range []string{"X-U1", "X-U2", "X-Exp-Sec", "X-Exp-Ms"} {
 			if got, want := q.Resp.Get(k), x.Hdr[k]; got != want {
 				g.viol("transparency|header|"+k+sfx, fmt.Sprintf("hit %s=%q, origin %q", k, got, want), ox)
 			}
